@@ -46,7 +46,7 @@ def stepModel (st : HSt) (op : String) : HSt :=
     let (p, v) := hexPair rest
     { st with bus := st.bus.writePort (p % 256) (BitVec.ofNat 8 v), res := st.res.push "k" }
   | "t" =>
-    let (b', reqs) := st.bus.updateModules (hexD rest % 256)
+    let (b', reqs) := st.bus.updateModules (hexD rest % 65536)
     { st with bus := b', pending := st.pending ++ reqs, res := st.res.push "k" }
   | "s" =>
     { st with bus := { st.bus with stateSum := hexD rest }, res := st.res.push "k" }
@@ -164,7 +164,7 @@ def stepTmr (st : TmrSt) (op : String) : TmrSt :=
     | some x => { st with res := st.res.push (bvHex x) }
     | none => { st with dom := false, res := st.res.push "?" }
   | "t" =>
-    let n := hexD rest % 256
+    let n := hexD rest % 65536
     let dom := st.dom && st.t.domain
     { st with t := Spec.Tmr.states n st.t, res := st.res.push "k", dom := dom }
   | _ => { st with dom := false, res := st.res.push "?" }
